@@ -7,6 +7,7 @@ import (
 	"math/rand"
 	"sort"
 	"strings"
+	"sync"
 	"testing"
 
 	"github.com/ipfs/go-cid"
@@ -188,7 +189,57 @@ func TestC19(t *testing.T) {
 		}
 	}
 	for s := 0; s < nseeds; s++ {
-		gens = append(gens, g{"UnixFSDirectory-stickysource", 4 << 10, s}, g{"UnixFSDirectory-stickysource", 20000, s})
+		gens = append(gens, g{"UnixFSDirectory-stickysource", 4 << 10, s}, g{"UnixFSDirectory-stickysource", 20000, s}, g{"UnixFSDirectory-custom-ext-sticky", 20000, s})
+	}
+	// fixtures generated by several goroutines at once (each its own store and random source): every
+	// description has to match its own stored DAG
+	for round := 0; round < r.Pick(3, 20); round++ {
+		round := round
+		r.Case(fmt.Sprintf("concurrent-generation/%d", round), map[string]any{"goroutines": 8, "round": round}, func(c *mon.Case) {
+			const G = 8
+			stores := make([]*store.Store, G)
+			des := make([]testutil.DirEntry, G)
+			errs := make([]error, G)
+			var wg sync.WaitGroup
+			start := make(chan struct{})
+			for g := 0; g < G; g++ {
+				stores[g] = store.New()
+				stores[g].IgnoreCtx = true
+				wg.Add(1)
+				go func(g int) {
+					defer wg.Done()
+					defer func() {
+						if p := recover(); p != nil {
+							errs[g] = fmt.Errorf("panic: %v", p)
+						}
+					}()
+					rnd := rand.New(rand.NewSource(int64(c.Seed) + int64(g)*7919))
+					ls := stores[g].LinkSystem(false)
+					<-start
+					for rep := 0; rep < 6 && errs[g] == nil; rep++ {
+						if g%2 == 0 {
+							des[g], errs[g] = testutil.UnixFSFile(*ls, 20000+g*1000, testutil.WithRandReader(rnd), testutil.WithChunker("size-1000"))
+						} else {
+							des[g], errs[g] = testutil.UnixFSDirectory(*ls, 12000, testutil.WithRandReader(rnd))
+						}
+					}
+				}(g)
+			}
+			close(start)
+			wg.Wait()
+			c.Count("generations", G)
+			c.Count("concurrent_generations", G)
+			for g := 0; g < G; g++ {
+				if errs[g] != nil {
+					c.Violation("C19|concurrent|generator-error", "one of %d concurrent generations failed: %v", G, errs[g])
+					continue
+				}
+				stt := &c19Stats{}
+				compareEntry(c, "concurrent", walkerFor(stores[g]), des[g], g%2 == 1, 0, stt)
+				c.Count("entries_compared", int64(stt.entries))
+			}
+			c.Sig("concurrent-generation", true)
+		})
 	}
 	for _, gg := range gens {
 		gg := gg
@@ -268,6 +319,24 @@ func TestC19(t *testing.T) {
 							return nil, err
 						}
 						f.Path = name
+						return &f, nil
+					}))
+				case "UnixFSDirectory-custom-ext-sticky":
+					// a child generator that gives its files an extension, fed by a source that proposes
+					// one name over and over for a while
+					pathRule = true
+					n := 0
+					src := &stickyReader{r: rnd, from: 30 + 53*gg.Var, length: 5000, b: byte(2 + gg.Var%4)}
+					de, err = testutil.UnixFSDirectory(*ls, gg.Size, testutil.WithRandReader(src), testutil.WithChildGenerator(func(name string) (*testutil.DirEntry, error) {
+						n++
+						if n > 14 {
+							return nil, nil
+						}
+						f, err := testutil.UnixFSFile(*ls, 60+n*11, testutil.WithRandReader(rnd))
+						if err != nil {
+							return nil, err
+						}
+						f.Path = name + []string{".txt", ".tar.gz"}[gg.Var%2]
 						return &f, nil
 					}))
 				case "GenerateDirectory", "GenerateDirectory-sharded":
